@@ -504,6 +504,10 @@ type inst struct {
 type dtPair struct{ D, T inst }
 
 var locNames = []string{"UTC", "+05:45", "America/New_York"}
+
+// dstNames: zones whose offset changes; instants around their transitions (the repeated and the
+// skipped local hour) are compared across all locations.
+var dstNames = []string{"America/New_York", "Europe/London", "Australia/Lord_Howe"}
 var locs = map[string]*time.Location{}
 
 func loadLocs(r *vk.Run) bool {
@@ -515,6 +519,14 @@ func loadLocs(r *vk.Run) bool {
 		return false
 	}
 	locs["America/New_York"] = ny
+	for _, n := range dstNames {
+		l, err := time.LoadLocation(n)
+		if err != nil {
+			r.Machinery("cannot load %s: %v", n, err)
+			return false
+		}
+		locs[n] = l
+	}
 	return true
 }
 
@@ -606,6 +618,41 @@ func runDateTimes(r *vk.Run) {
 	r.Distinct(int64(len(all) * len(all)))
 	r.Set("datetime_instants", len(judged))
 	r.Set("datetime_ordered_pairs", int64(len(all)*len(all)))
+
+	// around offset changes: the repeated hour (two instants share one wall-clock reading) and the
+	// skipped one, every instant expressed in every location, all ordered pairs
+	trans := []inst{}
+	seenT := map[int64]bool{}
+	for _, zn := range dstNames {
+		at := time.Date(2024, 1, 15, 12, 0, 0, 0, locs[zn])
+		for k := 0; k < 2; k++ {
+			_, end := at.ZoneBounds()
+			if end.IsZero() {
+				break
+			}
+			base := end.Unix()
+			at = end.Add(24 * time.Hour)
+			for _, off := range []int64{-3601, -3600, -1801, -1800, -1, 0, 1, 1799, 1800, 3599, 3600, 3601} {
+				if seenT[base+off] {
+					continue
+				}
+				seenT[base+off] = true
+				for _, ns := range []int64{0, 999000000} {
+					for _, l := range append([]string{"UTC", "+05:45"}, dstNames...) {
+						trans = append(trans, inst{base + off, ns, l})
+					}
+				}
+			}
+		}
+	}
+	vk.Parallel(len(trans), func(i int) {
+		for j := range trans {
+			checkDateTime(r, trans[i], trans[j], true)
+		}
+		r.Count(int64(len(trans)))
+	})
+	r.Distinct(int64(len(trans) * len(trans)))
+	r.Set("datetime_transition_instants", len(trans))
 
 	// before 1970: executed, not judged
 	var n int64
@@ -865,7 +912,7 @@ func main() {
 	r.Rule("HH:mm: every ordered pair of the 1441 values 00:00..24:00, every triple over the boundary set; " +
 		"dates: every day 0001-01-02..9999-12-31 paired (both orders) with itself and with the day k days later for every k in date_sweep_distances_days, " +
 		"every ordered pair over the boundary set (counted as distinct only when its distance is not one of the k), every triple over the subset; " +
-		"date-times: every ordered pair of (instant, location) over the de-duplicated instants from 1970 on × 3 locations; " +
+		"date-times: every ordered pair of (instant, location) over the de-duplicated instants from 1970 on × 3 locations, and every ordered pair over the instants within ±1 h 1 s of each 2024 offset change of America/New_York, Europe/London and Australia/Lord_Howe (repeated and skipped local hour) × 5 locations; " +
 		"SetTimeProfile: every (start, end) of 1441² in each segment position per transport, the other two segments fixed; " +
 		"distinct = distinct argument tuples by construction; the zero Date and pre-1970 instants are executed but neither judged nor counted as distinct")
 	r.Sample(map[string]any{"hhmm": "a=08:59 b=09:00", "reference": "a earlier: Before only; b.After(a)"})
